@@ -18,7 +18,8 @@ use serde_json::json;
 
 fn quota() -> DecoderConfig {
     let mut c = DecoderConfig::new();
-    c.set_decoding_quota(5_000_000);
+    // only a guard against runaway decodes: far above the cost of any generated value (skipping costs 50x)
+    c.set_decoding_quota(2_000_000_000);
     c
 }
 
@@ -114,6 +115,7 @@ pub fn run(ctx: &mut Ctx) {
                 let shape_pair = format!("{}|{}", shape(&env, &ts[a], 3), shape(&env, &ts[b], 3));
                 match got {
                     Err(p) => ctx.violation(&format!("panic|decode-at-supertype|{}", p.sig()), &p.message, input(&bytes)),
+                    Ok(Err(e)) if format!("{e:?}").contains("cost exceeds the limit") => ctx.count("excluded:guard-quota"),
                     Ok(Err(e)) => {
                         // the spec's coercion has no finite derivation for some accepted pairs (a non-optional value at
                         // `type O = opt O`): implementations run into their nesting limit there (spec suite: "fix opt")
